@@ -370,6 +370,22 @@ pub fn run(tier: Tier) -> i32 {
             rep.violation(k, w, j);
         }
     }
+    // the relations' inputs may have been reached through library calls: statistics of such values
+    // are those of the values themselves (shared with C06)
+    {
+        let (n, viols) = super::c06::stat_after_histories("C14");
+        for (k, w, j) in viols {
+            rep.violation(k, w, j);
+        }
+        rep.part(Part {
+            name: "lib: statistics after histories of library calls".into(),
+            evaluations: n,
+            nontrivial: n,
+            note: "6 spectra x 17 histories over {into_normalized, normalize, an entry scaled / the corners zeroed through the indexing operator, masking through inner_mut, clone_from into a spectrum of the reversed shape, fold}: scaling an entry of a frequency spectrum and normalizing again, or copying a spectrum into one of another shape, leaves the statistics those of the values".into(),
+            exhaustive: true,
+            extra: vec![],
+        });
+    }
     rep.part(Part {
         name: "lib: relation instances".into(),
         evaluations: ev,
